@@ -214,7 +214,7 @@ def search(ctx):
         k = G.term_tok(t)
         if k not in built:
             built[k] = G.build(t)
-        roundtrip_one(ctx, t, built[k], h, w, items, "roundtrip")
+        roundtrip_one(ctx, t, built[k], h, w, items, "roundtrip", must_accept=t in G.CURATED)
     # room partitions
     plain = [("R", False, False), ("R", True, False), ("R", False, True)]
     valued = [("V", ("O", [("H",), ("S", -1, "g")]), True, False), ("V", ("T", [("I",), ("F", "/")]), False, False)]
